@@ -240,6 +240,34 @@ func xPredictedSize(x xval) (sz int, p any) {
 	return -1, nil
 }
 
+// guardedDecode decodes in twice inside a guarded arena (the input ending right at a page that may not be touched,
+// then starting right behind one): a decoder that reads a single byte outside the input faults.
+func guardedDecode(kind string, in []byte, newBuf bool) (sig string, at any) {
+	g := getGuardArena()
+	if g == nil {
+		return "", nil
+	}
+	defer putGuardArena(g)
+	for _, atEnd := range []bool{true, false} {
+		src := g.place(in, atEnd)
+		if src == nil {
+			return "", nil
+		}
+		var r callRes
+		withFaultsAsPanics(func() { r = xUnmarshal(kind, src, newBuf) })
+		if r.panic == nil {
+			continue
+		}
+		if addr, ok := g.guardFault(r.panic); ok {
+			side := map[bool]string{true: "behind its end", false: "before its start"}[atEnd]
+			return "read memory outside the input (" + side + ")", map[string]any{"len": len(in), "fault_offset_from_input": int64(addr) - int64(uintptr(unsafePtr(src)))}
+		}
+	}
+	return "", nil
+}
+
+func unsafePtr(b []byte) unsafe.Pointer { return unsafe.Pointer(unsafe.SliceData(b)) }
+
 func xUnmarshal(kind string, buf []byte, newBuf bool) (r callRes) {
 	defer func() {
 		if p := recover(); p != nil {
@@ -714,6 +742,11 @@ func checkDec(f *xfails, step int, s Step, prop string) {
 					continue
 				}
 				// C16: totality
+				if !slack {
+					if sig, at := guardedDecode(kind, in, newBuf); sig != "" {
+						f.add(step, "verdict", "xbinary: "+name+" "+sig, at, clip(in))
+					}
+				}
 				switch {
 				case r.panic != nil:
 					f.add(step, "verdict", "xbinary: "+name+" panicked on arbitrary input", fmt.Sprint(r.panic), clip(in))
